@@ -4,12 +4,15 @@ import (
 	"bufio"
 	"fmt"
 	"io"
+	"os"
 	"os/exec"
 	"strconv"
 	"strings"
 	"sync"
 	"time"
 )
+
+var debugIO = os.Getenv("VERIF_DEBUGIO") != ""
 
 type Result int
 
@@ -116,6 +119,9 @@ func (s *Solver) readLine(deadline time.Duration) (string, bool) {
 		if r.err != nil {
 			return "", false
 		}
+		if debugIO {
+			fmt.Fprintf(os.Stderr, "<< %s", r.l)
+		}
 		return strings.TrimSpace(r.l), true
 	case <-time.After(deadline):
 		return "", false
@@ -143,6 +149,9 @@ func (s *Solver) Check(b *B, asserts []*Term, want []*Term, raw []string) (Resul
 	sb.WriteString("(check-sat)\n")
 	if s.Log != nil {
 		io.WriteString(s.Log, sb.String())
+	}
+	if debugIO {
+		fmt.Fprintf(os.Stderr, ">> query %d bytes, %d asserts\n", sb.Len(), len(asserts))
 	}
 	if _, err := io.WriteString(s.in, sb.String()); err != nil {
 		s.Errors = append(s.Errors, "write: "+err.Error())
@@ -188,6 +197,12 @@ func (s *Solver) Check(b *B, asserts []*Term, want []*Term, raw []string) (Resul
 		}
 		q.WriteString("))\n")
 		io.WriteString(s.in, q.String())
+		if s.Log != nil {
+			io.WriteString(s.Log, q.String())
+		}
+		if debugIO {
+			fmt.Fprintf(os.Stderr, ">> %s", q.String())
+		}
 		// read balanced s-expression
 		txt, ok := s.readSexp(wall)
 		if !ok {
@@ -203,6 +218,9 @@ func (s *Solver) Check(b *B, asserts []*Term, want []*Term, raw []string) (Resul
 		}
 	}
 	io.WriteString(s.in, "(pop 1)\n")
+	if s.Log != nil {
+		io.WriteString(s.Log, "(pop 1)\n")
+	}
 	switch res {
 	case Sat:
 		s.NSat++
